@@ -40,7 +40,7 @@ LIMIT_ERRORS = {
 # getsizeof depends on whether some earlier code cached their UTF-8 form (41/57/58/60-byte headers are otherwise
 # a function of the value).
 ATOMS = ["x", "ab", "Q-", "né", "été", "жы", "€", "a€", "\U0001F600", "b\U0001F600c", "0", "lorem ipsum"]
-BLANKS = [" ", "  ", "\n", "　", " \t"]
+BLANKS = [" ", "  ", "\n", "　", " \t", "\r\n"]
 LOCALS = ["a", "b", "c", "d"]
 LOOPVARS = ["v", "u"]
 GLOBALS = ["g", "s", "n", "arr", "arr2", "nums", "nil_", "zz"]
@@ -85,6 +85,25 @@ class ProgGen:
         if k == 6:
             return ["var", r.choice(["g", "s", "n"])]
         return ["var", r.choice(LOCALS)]
+
+    def prim_expr(self):
+        """A filter argument: a literal or a name (no nested filters)."""
+        e = self.scalar_expr()
+        return e
+
+    def filtered_expr(self):
+        """e | append: a | prepend: b | size …  (filters are modelled as functions on values)."""
+        r = self.r
+        e = self.scalar_expr()
+        for _ in range(r.range(1, 2)):
+            k = r.below(10)
+            if k < 5:
+                e = ["filt", "append", e, self.prim_expr()]
+            elif k < 8:
+                e = ["filt", "prepend", e, self.prim_expr()]
+            else:
+                e = ["filt", "size", e]
+        return e
 
     def any_expr(self):
         if self.r.chance(15):
@@ -143,11 +162,11 @@ class ProgGen:
         leaf = depth >= self.max_depth
         k = r.below(100)
         if k < 16:
-            return ["text", r.choice(ATOMS) if r.chance(80) else r.choice(BLANKS)]
+            return ["text", r.choice(ATOMS + ["a\rb\r\n"]) if r.chance(80) else r.choice(BLANKS)]
         if k < 30:
-            return ["output", self.any_expr()]
+            return ["output", self.filtered_expr() if r.chance(25) else self.any_expr()]
         if k < 42:
-            return ["assign", r.choice(LOCALS), self.scalar_expr()]
+            return ["assign", r.choice(LOCALS), self.filtered_expr() if r.chance(40) else self.scalar_expr()]
         if k < 48:
             grp = r.choice(["", "", "g1", "g2"])
             return ["cycle", grp, [self.scalar_expr() for _ in range(r.range(1, 3))]]
@@ -158,9 +177,16 @@ class ProgGen:
         if k < 64:
             return ["ifchanged", self.block(depth + 1, 0, 3)]
         if k < 72:
+            tag = "unless" if r.chance(30) else "if"
             if r.chance(25):
-                return ["if", self.scalar_expr(), self.blank_block(depth + 1), self.blank_block(depth + 1) if r.chance(50) else []]
-            return ["if", self.scalar_expr(), self.block(depth + 1), self.block(depth + 1, 0, 2) if r.chance(50) else []]
+                return [tag, self.scalar_expr(), self.blank_block(depth + 1), self.blank_block(depth + 1) if r.chance(50) else []]
+            return [tag, self.scalar_expr(), self.block(depth + 1), self.block(depth + 1, 0, 2) if r.chance(50) else []]
+        if k < 75:
+            args = [[n, self.scalar_expr()] for n in ARGNAMES if r.chance(70)] or [["y", self.scalar_expr()]]
+            return ["with", args, self.blank_block(depth + 1) if r.chance(15) else self.block(depth + 1, 1, 3)]
+        if k < 79:
+            body = self.blank_block(depth + 1) if r.chance(15) else self.block(depth + 1, 0, 3)
+            return ["tablerow", r.choice(LOOPVARS), self.iter_expr(), body]
         if k < 84:
             body = self.blank_block(depth + 1) if r.chance(15) else self.block(depth + 1, 1, 4)
             return ["for", r.choice(LOOPVARS), self.iter_expr(), body, self.block(depth + 1, 0, 2) if r.chance(30) else []]
@@ -214,6 +240,8 @@ def gen_prog(rng: Rng, max_depth=3, recursive_pct=10):
 def expr_src(e):
     if e[0] == "var":
         return e[1]
+    if e[0] == "filt":
+        return expr_src(e[2]) + " | " + e[1] + (": " + expr_src(e[3]) if len(e) > 3 else "")
     v = e[1]
     if isinstance(v, list):
         return f"({v[0]}..{v[-1]})" if v else "(1..0)"
@@ -248,6 +276,13 @@ def node_src(n):
     if t == "if":
         els = "{% else %}" + nodes_src(n[3]) if n[3] else ""
         return "{% if " + expr_src(n[1]) + " %}" + nodes_src(n[2]) + els + "{% endif %}"
+    if t == "unless":
+        els = "{% else %}" + nodes_src(n[3]) if n[3] else ""
+        return "{% unless " + expr_src(n[1]) + " %}" + nodes_src(n[2]) + els + "{% endunless %}"
+    if t == "with":
+        return "{% with " + ", ".join(f"{k}: {expr_src(e)}" for k, e in n[1]) + " %}" + nodes_src(n[2]) + "{% endwith %}"
+    if t == "tablerow":
+        return "{% tablerow " + n[1] + " in " + expr_src(n[2]) + " %}" + nodes_src(n[3]) + "{% endtablerow %}"
     if t == "for":
         els = "{% else %}" + nodes_src(n[4]) if n[4] else ""
         return "{% for " + n[1] + " in " + expr_src(n[2]) + " %}" + nodes_src(n[3]) + els + "{% endfor %}"
@@ -274,8 +309,8 @@ def prog_source(prog):
     return nodes_src(prog["main"]), {name: nodes_src(body) for name, body in prog["templates"]}
 
 
-def model_prog(prog):
-    return {"templates": prog["templates"], "globals": prog["globals"]}
+def model_prog(prog, lax=False):
+    return {"templates": prog["templates"], "globals": prog["globals"], "lax": bool(lax)}
 
 
 def nest_depth(nodes) -> int:
@@ -286,8 +321,12 @@ def nest_depth(nodes) -> int:
             d = max(d, 1 + nest_depth(n[2]))
         elif t == "ifchanged":
             d = max(d, 1 + nest_depth(n[1]))
-        elif t == "if":
+        elif t in ("if", "unless"):
             d = max(d, 1 + max(nest_depth(n[2]), nest_depth(n[3])))
+        elif t == "with":
+            d = max(d, 1 + nest_depth(n[2]))
+        elif t == "tablerow":
+            d = max(d, 1 + nest_depth(n[3]))
         elif t == "for":
             d = max(d, 1 + max(nest_depth(n[3]), nest_depth(n[4])))
     return d
@@ -299,7 +338,7 @@ def node_kinds(nodes, acc=None):
         acc.add(n[0])
         for x in n[1:]:
             if isinstance(x, list) and x and isinstance(x[0], list) and x[0] and isinstance(x[0][0], str) and x[0][0] in (
-                "text", "output", "assign", "capture", "ifchanged", "cycle", "if", "for", "include", "render"):
+                "text", "output", "assign", "capture", "ifchanged", "cycle", "if", "unless", "with", "for", "tablerow", "include", "render"):
                 node_kinds(x, acc)
     return acc
 
@@ -355,7 +394,7 @@ def make_env(partials: dict, lim: dict, spy=None, mode=None, flags=None):
         attrs["template_class"] = SpyTemplate
     cls = type("LimEnv", (Environment,), attrs)
     tol = {None: Mode.STRICT, "strict": Mode.STRICT, "warn": Mode.WARN, "lax": Mode.LAX}[mode]
-    return cls(loader=DictLoader(dict(partials)), tolerance=tol)
+    return cls(loader=DictLoader(dict(partials)), tolerance=tol, extra=True)
 
 
 def run_source(source: str, partials: dict, data: dict, lim: dict, spy=None, is_async=False, mode=None, flags=None):
@@ -385,11 +424,11 @@ def run_source(source: str, partials: dict, data: dict, lim: dict, spy=None, is_
         return {"err": type(e).__name__, "rle": isinstance(e, ResourceLimitError), "liquid": isinstance(e, LiquidError)}
 
 
-def run_prog(prog, lim, spy=None, is_async=False):
+def run_prog(prog, lim, spy=None, is_async=False, mode=None):
     src, partials = prog_source(prog)
     # lists are rebuilt with their exact allocation (56 + 8n bytes): getsizeof of a list depends on how it grew
     data = {k: (list(tuple(v)) if isinstance(v, list) else v) for k, v in prog["globals"]}
-    return run_source(src, partials, data, lim, spy=spy, is_async=is_async)
+    return run_source(src, partials, data, lim, spy=spy, is_async=is_async, mode=mode)
 
 
 def new_spy():
